@@ -78,6 +78,7 @@ struct Interp {
     std::vector<uint8_t> fileBytes;                  // bytes used by the last 'load' op
     Listener *L = nullptr;
     int saves = 0;
+    bool continueAfterConsistentDeviation = false;  // C07: an accepted deviating frame does not end the history when every filled frame and the header agree on the new shape
     bool allowUndeclaredFrames = false;          // C07 submits frames to objects with nothing declared
     const std::vector<Op> *caseOps = nullptr;    // all ops of the running case (file-model ops are read from here)
     size_t opsRun = 0;
